@@ -28,11 +28,14 @@ META = dict(
           "substitution, refraction, mirror); cases are distinct by construction (points, atoms and compounds are "
           "enumerated without repetition); non-trivial = the expected value is a finite number (in-range query)"),
     bound=dict(
-        quick="all 92 tables: every node + midpoint + 8 range probes, 4 routes, every ion, every isotope and "
-              "isotope ion; all 211 f0 entries x 8 Q x every reaching atom; 17-atom alphabet: all singles and "
-              "unordered pairs x 2 count patterns x 3 densities x (7 grid energies + edge nodes)",
-        thorough="same tables with quarter points added; same f0 sweep; compounds: 4 count patterns, 4 densities, "
-                 "24 grid energies, plus all triples over a 7-atom sub-alphabet"),
+        quick="all 92 tables: every node + 3 points per segment (0.25, 0.5, 0.75) + range probes, 4 routes, every "
+              "ion, every isotope and isotope ion; all 211 f0 entries x 8 Q x every reaching atom; 17-atom alphabet: "
+              "all singles x 2 counts, all unordered pairs x 3 count patterns, all triples over a 7-atom sub-alphabet; "
+              "x 3 densities x "
+              "(5 grid energies + 2 out of range + edge-bracketing nodes of the atoms present)",
+        thorough="same tables with 5 points per segment (0.01, 0.25, 0.5, 0.75, 0.99); same f0 sweep; compounds: "
+                 "singles x 3 counts, pairs x 4 count patterns, all triples over the 17-atom alphabet x 2 count "
+                 "patterns; x 5 densities x (24 grid energies + 2 out of range + edge nodes)"),
     assumptions=[
         "the .nff and f0_WaasKirf.dat texts are the source of truth (loader errors are detected, not data errors)",
         "physical constants and neutral atom masses / element densities are read from the library (C06)",
@@ -71,11 +74,13 @@ SUB_ALPHABET = (("H", None, 0), ("H", 2, 0), ("O", 18, 0), ("Si", None, 0), ("Fe
 
 def _tier(quick):
     if quick:
-        return dict(counts2=((1, 1), (2, 3)), counts1=(1, 2.5), dens=(0.5, 1.0, 7.87),
-                    grid=(0.03, 1.0, 8.04, 17.4, 29.0), quarter=False, triples=False)
+        return dict(counts2=((1, 1), (2, 3), (0.5, 1)), counts1=(1, 2.5), counts3=((2, 1, 0.5),), dens=(0.5, 1.0, 7.87),
+                    grid=(0.03, 1.0, 8.04, 17.4, 29.0), fractions=(0.25, 0.5, 0.75), triples=SUB_ALPHABET)
     g = [0.0101 * (30.0 / 0.0101) ** (i / 18.0) * 0.999 for i in range(19)]
-    return dict(counts2=((1, 1), (2, 3), (0.5, 1), (7, 0.25)), counts1=(1, 2.5, 0.125), dens=(0.5, 1.0, 7.87, 19.3),
-                grid=tuple(sorted(set((0.03, 1.0, 8.04, 17.4, 29.0) + tuple(g)))), quarter=True, triples=True)
+    return dict(counts2=((1, 1), (2, 3), (0.5, 1), (7, 0.25)), counts1=(1, 2.5, 0.125), counts3=((2, 1, 0.5), (1, 3, 1)),
+                dens=(0.07, 0.5, 1.0, 7.87, 19.3),
+                grid=tuple(sorted(set((0.03, 1.0, 8.04, 17.4, 29.0) + tuple(g)))),
+                fractions=(0.01, 0.25, 0.5, 0.75, 0.99), triples=ALPHABET)
 
 
 # ------------------------------------------------------------------------------------- helpers
@@ -178,7 +183,7 @@ def cands_out(cands):
 
 
 # ------------------------------------------------------------------------------------- table unit
-def table_points(t, quarter=False):
+def table_points(t, fractions=(0.5,)):
     """[(kind, E, fuzzy)]: kind in in-range / out-of-range; fuzzy = node position ambiguous."""
     xs, n = t.energy, len(t)
     pts = []
@@ -187,7 +192,7 @@ def table_points(t, quarter=False):
             pts.append(("node", xs[k], rx.node_is_fuzzy(t, k)))
     for k in range(n - 1):
         if xs[k + 1] > xs[k]:
-            for fr in ((0.25, 0.5, 0.75) if quarter else (0.5,)):
+            for fr in fractions:
                 E = xs[k] + fr * (xs[k + 1] - xs[k])
                 if xs[k] < E < xs[k + 1] and not rx.in_zone(t, E):
                     pts.append(("between", E, False))
@@ -227,7 +232,7 @@ def table_unit(arg):
     sym = _sym(stem)
     el = pt.elements.symbol(sym)
     tier = _tier(quick)
-    pts = rotate(table_points(t, tier["quarter"]), seed)
+    pts = rotate(table_points(t, tier["fractions"]), seed)
     E = [p[1] for p in pts]
     strict = [rx.sf_candidates(t, p[1], fuzzy=p[2]) for p in pts]
     fuzzy = [rx.sf_candidates(t, p[1], fuzzy=True) for p in pts]
@@ -318,6 +323,7 @@ def table_unit(arg):
                 viol("sf-vector-differs-from-scalar" if route == "energy-vector"
                      else "sf-wavelength-differs-from-energy", route, i, [fl(f1[j]), fl(f2[j])], cands_out(cl[i]))
                 break
+    sweep_clean = not acc.viol
     # ions, isotopes, isotope ions: same answer as the element (vector route)
     if vec_e is not None:
         others = []
@@ -331,7 +337,7 @@ def table_unit(arg):
             acc.states += 1
             acc.nontrivial += 1
             acc.evaluations += 1
-            acc.transitions += len(idx)
+            acc.transitions += 1          # one edge element -> atom (a whole vector is compared)
             code = ("import numpy, periodictable as pt\nE = numpy.array(%r)\nprint(%s.xray.scattering_factors(energy=E))\n"
                     "print(pt.%s.xray.scattering_factors(energy=E))\n" % ([E[i] for i in idx[:2]], atom_code(spec), sym))
             alias = spec_is_alias_ion(pt, spec)
@@ -355,7 +361,7 @@ def table_unit(arg):
                 acc.violation(sig, dict(unit="table", stem=stem, atom=atom_code(spec), route="energy-vector"),
                               expected="the factors of %s: %r" % (sym, [fl(vec_e[0][0]), fl(vec_e[1][0])]),
                               observed=obs, standalone=code)
-    if not acc.viol:
+    if sweep_clean:
         element_sld(pt, xsf, consts, t, el, sym, acc)
     return acc
 
@@ -389,8 +395,8 @@ def element_sld(pt, xsf, consts, t, el, sym, acc):
             acc.violation("element-sld-raises", case, "values", exc(e), standalone=code)
             continue
         for j, e in enumerate(Es):
-            (f1, f2), _s = cand[j][0]
-            rr, ri, s1, s2 = rx.sld_reference([(1.0, f1, f2)], mass, dens, consts)
+            (f1, f2), (m1, m2) = cand[j][0]
+            rr, ri, s1, s2 = rx.sld_reference([(1.0, f1, f2, m1, m2)], mass, dens, consts)
             if f1 == f1:
                 acc.nontrivial += 1
             if not (ok1(r[j], rr, s1) and ok1(ir[j], ri, s2)):
@@ -552,17 +558,21 @@ def compound_list(tier):
         for j in range(i + 1, n):
             for ci, cj in tier["counts2"]:
                 out.append(((ALPHABET[i], ci), (ALPHABET[j], cj)))
-    if tier["triples"]:
-        m = len(SUB_ALPHABET)
-        for i in range(m):
-            for j in range(i + 1, m):
-                for k in range(j + 1, m):
-                    out.append(((SUB_ALPHABET[i], 2), (SUB_ALPHABET[j], 1), (SUB_ALPHABET[k], 0.5)))
+    A3 = tier["triples"]
+    m = len(A3)
+    for i in range(m):
+        for j in range(i + 1, m):
+            for k in range(j + 1, m):
+                for ci, cj, ck in tier["counts3"]:
+                    out.append(((A3[i], ci), (A3[j], cj), (A3[k], ck)))
     return out
 
 
 def cmpd_code(cmpd):
-    return "{%s}" % ", ".join("%s: %r" % (atom_code(a), c) for a, c in cmpd)
+    tot = {}
+    for a, c in cmpd:
+        tot[a] = tot.get(a, 0) + c
+    return "{%s}" % ", ".join("%s: %r" % (atom_code(a), tot[a]) for a in tot)
 
 
 def cmpd_label(cmpd):
@@ -570,7 +580,11 @@ def cmpd_label(cmpd):
 
 
 def cmpd_dict(pt, cmpd):
-    return dict((atom_obj(pt, a), c) for a, c in cmpd)
+    out = {}
+    for a, c in cmpd:
+        o = atom_obj(pt, a)
+        out[o] = out.get(o, 0) + c
+    return out
 
 
 def cmpd_energies(cmpd, tier):
@@ -596,7 +610,7 @@ def cmpd_reference(pt, consts, cmpd, density, E, fuzzy=False):
         for cand in cl:
             if not any(repr(cand[0]) == repr(u[0]) for u in uniq):
                 uniq.append(cand)
-        per.append([(c, u[0][0], u[0][1]) for u in uniq])
+        per.append([(c, u[0][0], u[0][1], u[1][0], u[1][1]) for u in uniq])
     mass = sum(c * ref_mass(pt, consts, a) for a, c in cmpd)
     combos = [[]]
     for alts in per:
@@ -686,8 +700,10 @@ def compound_unit(cmpd, pt, xsf, consts, tier, acc, broken):
                 V("sld-raises", [fl(r[j]), fl(ir[j])], exc(ex), "xsf.xray_sld(%s, density=%r, energy=%r)" % (code_c, d, e))
                 bad = True
                 break
-            if np.ndim(sr) != 0 or not (ok1(sr, float(r[j]), scale[j][0], 1e-12) and ok1(sir, float(ir[j]), scale[j][1], 1e-12)):
-                V("sld-vector-differs-from-scalar", [fl(r[j]), fl(ir[j])], [fl(sr) if np.ndim(sr) == 0 else repr(sr), fl(sir) if np.ndim(sir) == 0 else repr(sir)],
+            if np.size(sr) != 1 or np.size(sir) != 1 or not (
+                    ok1(np.asarray(sr, dtype=float).reshape(-1)[0], float(r[j]), scale[j][0], 1e-12) and
+                    ok1(np.asarray(sir, dtype=float).reshape(-1)[0], float(ir[j]), scale[j][1], 1e-12)):
+                V("sld-vector-differs-from-scalar", [fl(r[j]), fl(ir[j])], [repr(sr), repr(sir)],
                   "xsf.xray_sld(%s, density=%r, energy=%r), %s" % (code_c, d, e, call_e), energy_keV=e)
                 bad = True
                 break
@@ -951,7 +967,15 @@ def run(ctx):
     cl = compound_list(tier)
     for ch in chunks(rotate(cl, ctx.seed), nshard):
         jobs.append(("compound", (ch, quick, ctx.seed)))
-    ctx.pmap(_dispatch, jobs)
+    kinds = {}
+    for j in jobs:
+        kinds.setdefault(j[0], []).append(j)
+    mixed = []
+    while any(kinds.values()):               # interleave the unit kinds (merge order = sample order)
+        for k in ("compound", "f0", "table"):
+            if kinds.get(k):
+                mixed.append(kinds[k].pop(0))
+    ctx.pmap(_dispatch, mixed)
     acc = ctx.acc
     acc.traces = acc.transitions
     acc.info["max_tables"] = len(T)
@@ -964,13 +988,34 @@ def run(ctx):
             acc.notes.append("%s.nff: energy %s listed twice (either row accepted at that energy)" % (s, dup[2]))
 
 
+def _san(x):
+    """JSON-safe copy: NaN / inf become strings (evidence and replay files are strict JSON)."""
+    if isinstance(x, float):
+        return x if x == x and abs(x) != float("inf") else repr(x)
+    if isinstance(x, dict):
+        return dict((k, _san(v)) for k, v in x.items())
+    if isinstance(x, (list, tuple)):
+        return [_san(v) for v in x]
+    if isinstance(x, np.generic):
+        return _san(x.item())
+    return x
+
+
+def _clean(acc):
+    for rec in acc.viol.values():
+        for k in ("case", "expected", "observed"):
+            rec[k] = _san(rec[k])
+    acc.samples = [_san(x) for x in acc.samples[:1]]     # one per shard, so that all unit kinds show up
+    return acc
+
+
 def _dispatch(job):
     kind, arg = job
     if kind == "table":
-        return table_shard(arg)
+        return _clean(table_shard(arg))
     if kind == "f0":
-        return f0_shard(arg)
-    return compound_shard(arg)
+        return _clean(f0_shard(arg))
+    return _clean(compound_shard(arg))
 
 
 def replay(ctx, case, signature=None):
@@ -998,6 +1043,6 @@ def replay(ctx, case, signature=None):
                 break
     else:
         raise MachineryError("unknown replay unit %r" % unit)
-    for sig, rec in acc.viol.items():
+    for sig, rec in _clean(acc).viol.items():
         if signature is None or sig == signature:
             ctx.acc.viol[sig] = rec
